@@ -15,6 +15,7 @@ CONSTANTS
   AfterHeight = 100
   LockNames = {"a", "b"}
   ConnectChoices <- RealConnect
+  SwapChoices <- RealSwap
   ReorgChoices <- RealReorg
   MaxTip = 700
   MaxSteps = 12
@@ -23,6 +24,6 @@ INIT PlainInit
 NEXT PlainSimNext
 VIEW View
 ACTION_CONSTRAINT Emit
-INVARIANTS FileInfoExact CursorAlive RecentHaveData
+INVARIANTS FileInfoExact FileInfoCovers CursorAlive RecentHaveData
 PROPERTIES PropRecentX PropLockedX PropBuffer PropAuto
 CHECK_DEADLOCK FALSE
